@@ -49,6 +49,9 @@ func SQLiteDSN(filename string, fileScheme, memory bool) string {
 			"foreign_keys(1)",
 			"journal_mode(wal)",
 			"busy_timeout(10000)",
+			// LIKE is used for name prefix matching (List*), which must be case
+			// sensitive as it is in PostgreSQL
+			"case_sensitive_like(1)",
 		},
 		// ref: https://gitlab.com/cznic/sqlite/-/issues/92
 		// we need BEGIN IMMEDIATE for several use cases to work
